@@ -470,9 +470,42 @@ class Check(common.Check):
                 if abs(v - want) > tol:
                     return bad('breakpoint', f'_at({ts}) = {float(v)} at breakpoint {j}, level {float(want)} expected '
                                              f'(shape {sh})')
+            ref = self.shape_value(sh, float((t - T[j]) / (T[j + 1] - T[j])), float(a), float(b),
+                                   float(curve_value(e['curves'][j % len(e['curves'])])))
+            if ref is not None and abs(float(v) - ref) > float(tol) * 10:
+                return bad('shape-value', f'_at({ts}) = {float(v)} inside segment {j}, the documented shape {sh} '
+                                          f'gives {ref}')
             if not (min(a, b) - tol <= v <= max(a, b) + tol):
                 return bad('between', f'_at({ts}) = {float(v)} is outside [{float(min(a, b))}, {float(max(a, b))}] '
                                       f'inside segment {j} (shape {sh})')
+        return None
+
+    @staticmethod
+    def shape_value(sh, pos, a, b, c):
+        """The server's / sclang's segment shapes (Env:at), written independently with `math`."""
+        import math
+        if sh == 0:
+            return b
+        if sh == 8:
+            return a
+        if sh == 1 or (sh == 5 and abs(c) < 0.0001):
+            return a + (b - a) * pos
+        if sh == 2:
+            return a * (b / a) ** pos
+        if sh == 3:
+            return a + (b - a) * (0.5 - 0.5 * math.cos(math.pi * pos))
+        if sh == 4:
+            if a < b:
+                return a + (b - a) * math.sin(math.pi / 2 * pos)
+            return b - (b - a) * math.sin(math.pi / 2 - math.pi / 2 * pos)
+        if sh == 5:
+            return a + (b - a) * (1 - math.exp(pos * c)) / (1 - math.exp(c))
+        if sh == 6:
+            y = pos * (math.sqrt(b) - math.sqrt(a)) + math.sqrt(a)
+            return y * y
+        if sh == 7:
+            y = pos * (b ** (1 / 3) - a ** (1 / 3)) + a ** (1 / 3)
+            return y ** 3
         return None
 
     @staticmethod
